@@ -111,5 +111,45 @@ def mapElements (h : HF2 K) (aabb : Aabb2 K) : List Nat :=
   (List.range' minX (maxX - minX)).filter fun i => h.cellKept refMins.y refMaxs.y i
 end HF2
 
+/-! ## the cell walk of the 2-D `cast_shapes_heightfield_shape` -/
+namespace HF2
+/-- `segment_at(i).is_some()` -/
+def present (h : HF2 K) (i : Nat) : Bool := decide (i < h.numCells) && h.status.getD i false
+
+/-- the `while` loop: `curr` = `curr_elt`; returns the cells on which the per-segment cast is attempted.  Fuel = the number
+of cells + 2 (the loop moves `curr_elt` by one towards the border at every turn). -/
+def walkLoop (h : HF2 K) (right : Bool) (cw sx ox dx hext maxToi : K) : Nat → Int → List Nat
+  | 0, _ => []
+  | fuel + 1, curr =>
+    if right && decide (curr < (h.numCells : Int) - 1) then
+      let curr' := curr + 1
+      let param := (cw * Quant.ofInt curr' + sx - ox) / dx
+      if maxToi ≤ param - hext / nabs dx then [] else
+      (if h.present curr'.toNat then [curr'.toNat] else []) ++ walkLoop h right cw sx ox dx hext maxToi fuel curr'
+    else if !right && decide (0 < curr) then
+      let param := (ox - cw * Quant.ofInt curr - sx) / dx
+      let curr' := curr - 1
+      if maxToi ≤ param - hext / nabs dx then [] else
+      (if h.present curr'.toNat then [curr'.toNat] else []) ++ walkLoop h right cw sx ox dx hext maxToi fuel curr'
+    else []
+
+/-- `cast_shapes_heightfield_shape` (dim2): the cells tested, in order.  `aabb` = `g2.compute_aabb(pos12).loosened(target_distance)`,
+`vel` = `vel12`. -/
+def walk (h : HF2 K) (aabb : Aabb2 K) (vel : V2 K) (maxToi : K) : List Nat :=
+  let n : Int := (h.numCells : Int)
+  let origin := V2.center aabb.mins aabb.maxs
+  let r := h.unclampedRange aabb
+  let right := decide (0 < vel.x)
+  let s := if right then r.1 else r.1 - 1
+  let e := if right then r.2 + 1 else r.2
+  let cs := (clampI s 0 n).toNat
+  let ce := (clampI e 0 n).toNat
+  let first := (List.range' cs (ce - cs)).filter fun i => h.present i
+  if neq vel.x 0 then first else
+  let hext := ((aabb.maxs.sub aabb.mins).smul (lit 1 2)).x
+  let curr0 : Int := if right then max (e - 1) (-1) else min s n
+  first ++ walkLoop h right h.cellWidth h.startX origin.x vel.x hext maxToi (h.numCells + 2) curr0
+end HF2
+
 end C07
 end Model
